@@ -87,7 +87,7 @@ const char *call_kinds[] = {"scalar.tagged", "scalar.external", "scalar.chained"
                             "rle.rt",        "rleh.rt",         "elias.gamma",    "elias.delta",
                             "bp128.32",      "bp128.64",        "bp128d.32",      "bp128d.64",
                             "float.rt",      "adaptive.rt",     "adaptive.forced", "packed.slice",
-                            "bitstream.slice", "decode.bad"};
+                            "bitstream.slice", "decode.bad",     "cells.external",   "packed.member"};
 
 Xform xform_of(const std::string &k, uint64_t enc) {
     if (k == "elias.gamma" || k == "elias.delta") return X_GE1;
@@ -147,6 +147,11 @@ struct Shared { // state shared by all tasks of one run (read-only for them, exc
     size_t packed_bytes = 0;
     uint64_t *bitwords = nullptr;                          // one shared bitstream, word-disjoint slices
     size_t bitwords_n = 0;
+    uint8_t *cells = nullptr;                              // one shared byte buffer: adjacent fixed-width cells, byte-disjoint
+    size_t cells_bytes = 0;
+    uint8_t *sorted_packed = nullptr;                      // one shared read-only sorted packed array
+    size_t sorted_bytes = 0;
+    uint32_t sorted_len = 0;
 };
 
 // One call of the catalogue.  Everything it writes is private, except the
@@ -428,6 +433,42 @@ uint64_t run_call(const Op &c, Shared &sh, int slice, int nslices) {
         for (size_t i = 0; i < slice_elems; i++) d.u64(pc.get(sh.packed, base + (uint32_t)i));
         pc.set_half(sh.packed, base + 1);
         d.u64(pc.get(sh.packed, base + 1));
+    } else if (k == "cells.external") {
+        // adjacent cells of one shared buffer, each exactly as wide as the varint stored in it:
+        // task t owns cells t*4 .. t*4+3; a store must touch nothing but its own bytes
+        unsigned w = (unsigned)(sh.packed_cfg % 8) + 1; // one width per run
+        const size_t per = 4;
+        uint8_t *base = sh.cells + (size_t)slice * per * w;
+        if ((size_t)(slice + 1) * per * w + 16 > sh.cells_bytes) return 0;
+        uint64_t mask = w >= 8 ? ~0ULL : ((1ULL << (8 * w)) - 1);
+        uint64_t lowest = w == 1 ? 0 : (1ULL << (8 * (w - 1))); // smallest value that needs w bytes
+        Lib l;
+        for (int round = 0; round < 2; round++)
+            for (size_t j = 0; j < per; j++) {
+                uint64_t v = (in[(j + (size_t)round) % n] & mask) | lowest;
+                uint8_t *cell = base + j * w;
+                if (round == 0)
+                    varintExternalPutFixedWidth(cell, v, (varintWidth)w);
+                else
+                    d.u64(varintExternalPut(cell, v)); // width derived from the value: w again
+                d.u64(varintExternalGet(cell, (varintWidth)w));
+            }
+        for (size_t j = 0; j < per; j++) d.u64(varintExternalGet(base + j * w, (varintWidth)w));
+    } else if (k == "packed.member") {
+        // queries on one shared, read-only, sorted packed array
+        int cfg = (int)(sh.packed_cfg % (uint64_t)shim_packed_ncfgs);
+        const shim_packed_cfg &pc = shim_packed_cfgs[cfg];
+        if (!sh.sorted_packed || !sh.sorted_len) return 0;
+        uint64_t mask = pc.bits >= 64 ? ~0ULL : ((1ULL << pc.bits) - 1);
+        Lib l;
+        for (size_t i = 0; i < std::min<size_t>(n, 6); i++) {
+            uint64_t v = in[i] & mask;
+            d.u64((uint64_t)pc.member(sh.sorted_packed, sh.sorted_len, v));
+            d.u64(pc.lower_bound(sh.sorted_packed, sh.sorted_len, v));
+            d.u64(pc.get(sh.sorted_packed, (uint32_t)(i % sh.sorted_len)));
+        }
+        d.u64((uint64_t)pc.member(sh.sorted_packed, sh.sorted_len, pc.get(sh.sorted_packed, sh.sorted_len / 2)));
+        d.u64((uint64_t)pc.member(sh.sorted_packed, sh.sorted_len, pc.get(sh.sorted_packed, 0)));
     } else if (k == "bitstream.slice") {
         size_t words = 4;
         if ((size_t)nslices * words > sh.bitwords_n) return 0;
@@ -590,10 +631,28 @@ class FiberEngine : public Engine {
         sh.packed = (uint8_t *)calloc(sh.packed_bytes, 1);
         sh.bitwords_n = 16 * 4 + 2;
         sh.bitwords = (uint64_t *)calloc(sh.bitwords_n, 8);
+        sh.cells_bytes = 16 * 4 * 8 + 32;
+        sh.cells = (uint8_t *)calloc(sh.cells_bytes, 1);
+        {
+            // the shared sorted packed array: built by the harness before any task exists
+            const shim_packed_cfg &pc = shim_packed_cfgs[sh.packed_cfg % (uint64_t)shim_packed_ncfgs];
+            uint64_t mask = pc.bits >= 64 ? ~0ULL : ((1ULL << pc.bits) - 1);
+            Rng pr(plan.seed ^ 0x50ac);
+            sh.sorted_len = (uint32_t)pr.range(2, 40);
+            if (pc.max_elements && sh.sorted_len > (uint32_t)pc.max_elements) sh.sorted_len = (uint32_t)pc.max_elements;
+            sh.sorted_bytes = ((size_t)(sh.sorted_len + 2) * (size_t)pc.bits + 7) / 8 + 32;
+            sh.sorted_packed = (uint8_t *)calloc(sh.sorted_bytes, 1);
+            const Vals *first = inputs.empty() ? nullptr : inputs.begin()->second;
+            for (uint32_t i = 0; i < sh.sorted_len; i++) {
+                uint64_t v = (first && i < first->size() && pr.chance(1, 2) ? (*first)[i] : pr.next()) & mask;
+                pc.insert_sorted(sh.sorted_packed, i, v);
+            }
+        }
         auto digest_inputs = [&]() {
             Digest d;
             for (auto &kv : sh.arrays) d.bytes(kv.second, sh.lens[kv.first] * 8);
             for (auto &kv : sh.dicts) d.bytes(kv.second->values, (size_t)kv.second->size * 8);
+            if (sh.sorted_packed) d.bytes(sh.sorted_packed, sh.sorted_bytes); // read-only for every task
             return d.h;
         };
         uint64_t in_before = digest_inputs();
@@ -606,6 +665,7 @@ class FiberEngine : public Engine {
             fiber::alone_steps_reset();
             memset(sh.packed, 0, sh.packed_bytes);
             memset(sh.bitwords, 0, sh.bitwords_n * 8);
+            memset(sh.cells, 0, sh.cells_bytes);
             for (size_t t = 0; t < ntasks; t++)
                 for (auto *c : programs[t]) {
                     ctx_note("task-alone call=" + c->kind);
@@ -613,6 +673,7 @@ class FiberEngine : public Engine {
                 }
             memset(sh.packed, 0, sh.packed_bytes);
             memset(sh.bitwords, 0, sh.bitwords_n * 8);
+            memset(sh.cells, 0, sh.cells_bytes);
             return fiber::alone_steps();
         };
         uint64_t est = concurrent_first ? 3000 * (uint64_t)std::max<size_t>(ncalls_total, 1) : alone_pass();
@@ -717,6 +778,8 @@ class FiberEngine : public Engine {
         for (auto &kv : sh.dicts) varintDictFree(kv.second);
         free(sh.packed);
         free(sh.bitwords);
+        free(sh.cells);
+        free(sh.sorted_packed);
         alloc::reset_run();
         return out;
     }
